@@ -112,7 +112,8 @@ def check(ctx: Ctx) -> None:
         if rterm != [("READ", ("const", 4)), ("PUSH", ("channel", ("int4", ("R", 0))))]:
             ob.violation(f, f.node, f"load_channel does not rebuild the channel from the id it read: {rterm!r}")
         nw = [c for c in repo.calls_in(f) if callee_attr(c) == "new"]
-        if len(nw) != 1 or unparse(nw[0].func.value) != "self.channelfactory":
+        from ..util import xtext
+        if len(nw) != 1 or xtext(repo, f, nw[0].func.value) != "self.channelfactory":
             ob.violation(f, f.node, "load_channel does not obtain the channel from the gateway's own factory (get-or-create by id)")
         # the unserializer is given the receiving channel's gateway
         flr = repo.func(f"{GB}.ChannelFactory._local_receive")
